@@ -898,6 +898,20 @@ def _vocab():
 
 
 def task(t, res):
+    if t.get("mazes") == "s33same" and not t.get("_inner"):
+        # the "one solution, many mazes" sweep is about what is remembered between mazes: its failures get their own keys, so that a
+        # same-key failure of an ordinary task (in a worker poisoned by an earlier task) cannot shadow this replayable one
+        from ..runner import Result
+
+        sub = Result()
+        task(dict(t, _inner=True), sub)
+        res.evaluations += sub.evaluations
+        res.distinct |= sub.distinct
+        for k, v in sub.counters.items():
+            res.count(k, v)
+        for f in sub.fails:
+            res.fail(f["key"] + "|same_solution_other_walls_before", "in the sweep of one stored solution over many mazes (same process): " + f["what"], f["replay"])
+        return
     sp = space()
     vocab = _vocab()
     tier = t["tier"]
